@@ -83,7 +83,7 @@ def run(rep, tier):
                 n["assign"] += 1
             elif nm in (CB + "::~sandbox_callback", CB + "::unregister"):
                 rec = owners.record_of(db, f)
-                owners.check_release(rep, "C13", db, f, inst, lambda e: e.kind == "CALL" and q.short(e.a) == "impl_unregister_callback", "callback", owners.field_names(rec))
+                owners.check_release(rep, "C13", db, f, inst, lambda e: e.kind == "CALL" and q.short(e.a) == "impl_unregister_callback", "callback", owners.field_names(rec, db))
                 n["release"] += 1
             elif nm == SB + "::register_callback" and len(f["params"]) == 1 and "func_ptr" == f["params"][0]["n"]:
                 check_register(rep, db, f, inst, style)
@@ -196,6 +196,8 @@ def check_register(rep, db, f, inst, style):
                     dup_checked = any(e.kind == "ASSUME" and e.loop > 0 and (e.extra or {}).get("abort_check") and isinstance(e.a, tuple) and e.a[:2] == ("cmp", "!=") and
                                       any(isinstance(x, tuple) and (x[:1] == ("elem",) or (x[:1] == ("rd",) and isinstance(x[1], tuple) and x[1][:1] == ("elem",))) for x in e.a[2:4])
                                       for e in evs[finds[0]:pushes[0]])
+            key_ins = q.unwrap_entry(p, key_ins)
+            key_find = q.unwrap_entry(p, key_find)
             key_backend = evs[backend[0]].b[0]
             owner_key = p.state.mem.get(("fld", p.retval, "key")) if isinstance(p.retval, tuple) else None
             owner_tr = p.state.mem.get(("fld", p.retval, "callback_trampoline")) if isinstance(p.retval, tuple) else None
@@ -337,6 +339,15 @@ def check_refuse(rep, db, f, inst):
         conds = q.conds_before(p, len(p.events))
         if t != C(0) and t in conds:
             continue
+        # an entry of a constant table of function addresses, read at an index proven to be inside the table
+        r0 = strip_rd_(r)
+        tabkey = lambda g: g if p.state.mem.get(("statictable", g)) is not None else (("global", "static:" + g[1]) if isinstance(g, tuple) and g[:1] == ("global",) else g)
+        if isinstance(r0, tuple) and r0[:1] == ("idx",) and isinstance(p.state.mem.get(("statictable", tabkey(r0[1]))), tuple):
+            tab = p.state.mem[("statictable", tabkey(r0[1]))]
+            inside = any(c[0] == "cmp" and c[1] == "<" and c[2] == r0[2] and c[3][0] == "c" and c[3][1] <= len(tab) for c in conds) and \
+                (any(c[0] == "cmp" and c[1] == "<=" and c[2][0] == "c" and c[2][1] >= 0 and c[3] == r0[2] for c in conds) or (isinstance(r0[2], tuple) and r0[2][:1] == ("havoc",) and False))
+            if tab and inside and all(truthy(x) == C(1) for x in tab):
+                continue
         rep.violation(rule, site(f) + " [no free slot]", "a path returns a null entry point (no free slot) instead of refusing the registration: the owner built from it claims to be registered", f["loc"], inst)
         return
     rep.ok(rule, site(f), "every returning path yields a non-null trampoline (%d paths)" % len(ps), inst)
